@@ -315,7 +315,10 @@ def starts (q : QName) : List Ev → List Id
   | .start q' t _ :: rest => if q' = q then starts q rest ++ [t] else starts q rest
   | _ :: rest => starts q rest
 
-def stopRequested (log : List Ev) : Bool := log.contains .stop
+def stopRequested : List Ev → Bool
+  | [] => false
+  | .stop :: _ => true
+  | _ :: rest => stopRequested rest
 
 /-- Number of handler entries of `q` after the stop request. -/
 def startsAfterStop (q : QName) : List Ev → Nat
@@ -362,9 +365,15 @@ def promptExitAux (q : QName) : List Ev → Bool → Bool
 
 def promptExit (q : QName) (log : List Ev) : Bool := !stopRequested log || promptExitAux q log false
 
+/-- the worker goroutine of `q` has returned -/
+def exited (q : QName) : List Ev → Bool
+  | [] => false
+  | .exit q' :: rest => q' == q || exited q rest
+  | _ :: rest => exited q rest
+
 /-- After `exit q` the worker does nothing more. -/
 def exitFinal (q : QName) : List Ev → Bool
   | [] => true
-  | e :: rest => (!(e.ofWorker q) || !(rest.contains (.exit q))) && exitFinal q rest
+  | e :: rest => (!(e.ofWorker q) || !(exited q rest)) && exitFinal q rest
 
 end ShellOp.Worker
